@@ -9,7 +9,18 @@ using namespace hx;
 namespace {
 
 constexpr int MAXN = 2, MAXHND = 64;
+// names are drawn per run from a pool: short, differing in one character, and long names that share a long prefix
+const char *name_pool[] = {"vp-sem-alpha", "vp-sem-beta", "a", "b", "vp-sem-alphb",
+                           "vp/sem/an-application-with-a-rather-long-common-prefix/queue-number-00000001",
+                           "vp/sem/an-application-with-a-rather-long-common-prefix/queue-number-00000002",
+                           "vp/sem/an-application-with-a-rather-long-common-prefix/queue-number-00000001 "};
 const char *user_names[MAXN] = {"vp-sem-alpha", "vp-sem-beta"};
+void pick_names() {
+  uint32_t a = gen(8), b = gen(7);
+  if (b >= a) b++;
+  user_names[0] = name_pool[a]; user_names[1] = name_pool[b];
+  if (strlen(user_names[0]) > 50 && strlen(user_names[1]) > 50) sim::probe("ipc.long_names_common_prefix");
+}
 
 struct Epoch { int name; int kobj; long init; long acq_ret = 0, rel_inv = 0, rel_ret = 0; int inflight = 0; bool unknown_init = false; int uncertain = 0; };
 struct Hnd { PSemaphore *h = nullptr; int name = 0, epoch = -1, proc = 0, task = -1; bool owner = false, live = false; };
@@ -266,6 +277,7 @@ void root() {
   hooks().completion_required = true;
   hooks().on_quiescence = on_quiescence;
   lib_begin();
+  pick_names();
   int tier = cfg().tier;
   // learn which system key each name maps to by observing one throw-away open (the harness never hashes names itself)
   for (int n = 0; n < MAXN; n++) {
@@ -275,6 +287,7 @@ void root() {
     HX_API_V("p_semaphore_free", n, false, p_semaphore_free(h));
     if (kern::sem_name_bound(S->key[n].c_str())) violate("owner_free_left_name", "p_semaphore_free", "creator freed its handle but the name still exists");
   }
+  if (S->key[0] == S->key[1]) violate("names_collide", "p_semaphore_new", "the distinct names '%s' and '%s' map to one system-wide semaphore", user_names[0], user_names[1]);
   int np = (int)gen_range(1, 3);
   S->nprocs = np;
   bool with_kill = np >= 2 && gen(3) == 0;
